@@ -62,6 +62,8 @@ type Plan struct {
 	Concurrent bool `json:"concurrent"`
 	Strategy   int  `json:"strategy"`
 	EarlyProbe bool `json:"early_probe"` // probes before the stream exists are allowed
+	// Desc: kind of streaming method (bit 0 set: not client-streaming, bit 1 set: not server-streaming)
+	Desc int `json:"desc,omitempty"`
 	// HeaderWaits: Header() of the underlying stream blocks until the next message
 	// sent has reached that stream (or the call's context ends)
 	HeaderWaits bool `json:"header_waits,omitempty"`
@@ -110,6 +112,9 @@ func Generate(r *rand.Rand, profile string, concurrent bool, avoid map[string]bo
 		p.Strategy = r.IntN(6) // 0 random walk, 1-3 PCT depth, 4-5 one long stall
 	}
 	p.HeaderWaits = r.IntN(3) == 0
+	if r.IntN(2) == 0 {
+		p.Desc = r.IntN(4)
+	}
 	p.EarlyProbe = !avoid["early_probe"] || r.IntN(4) == 0
 	if avoid["no_early_probe"] {
 		p.EarlyProbe = false
@@ -492,7 +497,11 @@ func (s *sim) run(src *simkit.Source, logOn bool) {
 		s.ctx, s.cancel = context.WithCancel(base)
 	}
 	var err error
-	s.cs, err = grpcgcp.GCPStreamClientInterceptor(s.ctx, &grpc.StreamDesc{ClientStreams: true, ServerStreams: true}, nil, "/svc/Stream", s.streamer)
+	// every kind of streaming method: bidi, client-streaming, server-streaming, and
+	// the zero descriptor (the statements make no difference between them)
+	desc := &grpc.StreamDesc{StreamName: "Stream", ClientStreams: s.plan.Desc&1 == 0, ServerStreams: s.plan.Desc&2 == 0}
+	s.res.Count(fmt.Sprintf("fault:stream_descriptor_client=%v_server=%v", desc.ClientStreams, desc.ServerStreams), 1)
+	s.cs, err = grpcgcp.GCPStreamClientInterceptor(s.ctx, desc, nil, "/svc/Stream", s.streamer)
 	if err != nil || s.cs == nil {
 		s.vio("C12", "interceptor-failed", "", fmt.Sprintf("GCPStreamClientInterceptor returned %v, %v", s.cs, err))
 		s.finish()
